@@ -25,7 +25,7 @@ CHECKS = {
             "Trusted: apischema's own per-alternative deserialize/serialize (self-referential oracle); the discriminator mapping rule transcribed from docs/json_schema.md and the example.", "DESIGN §5 C13"),
     "C08": ("pairwise boundary monitor (same call with / without one optimisation option) + container-identity walker + input fingerprints",
             "Exploration: results and errors of deserialize/serialize must be identical across no_copy, override_dataclass_constructors, function vs precomputed method, check_type on well-typed values, deserialization pass_through (instances left untouched; JSON-only data, valid and invalid, with every JSON-free class of the type passed through) and all 2^5 PassThroughOptions flag sets (after completion with serialization_default); no_copy=False results share no mutable container with the input (Any positions included); inputs are never modified; a directed family of constructor shapes (hand-written __init__, subclass __init__, inherited / mixin __post_init__, __new__, __setattr__, frozen, slots ...) must give the same result with and without override_dataclass_constructors.",
-            "Trusted: identity walker and JSON completion of pass-through results; abstains on the undeclared keys kept by a TypedDict (no-sharing clause) and on unions whose alternatives overlap by runtime class (serialization side).", "DESIGN §5 C08"),
+            "Trusted: identity walker and JSON completion of pass-through results; abstains on unions whose alternatives overlap by runtime class (serialization side).", "DESIGN §5 C08"),
     "C06": ("differential monitor: verdict of deserialize vs an independent JSON Schema validator (jsonschema, draft 2020-12) on the generated deserialization_schema, restricted to the common semantic domain; explanatory defect models for region-wide known findings",
             "Exploration: for generated (type, options, datum) the real deserialize must accept iff jsonschema validates the datum against the schema generated with the same options (additional_properties, aliaser, all_refs, per-call schema, std conversions), incl. generated discriminated-union families (inherited / Annotated, TypedDict and Literal-tag alternatives, mappings) with data aimed at every alternative and tag mutants, and conversion graphs under every placement (registered / default_conversion= / conversion= / field) where a disagreement is reported only when the conversion-free reference type agrees with its own schema; disagreements inside a known-bad region are attributed to the finding only when the explanatory model reproduces the observed outcome exactly.",
             "Trusted: jsonschema 4.26 validators and meta-schemas; the OpenAPI re-reading of discriminated schemas used only to attribute F33; generators keep patterns in the Python/ECMA common subset; data with integer-valued floats / duplicates at set positions / ill-formatted strings at format positions are outside the domain.", "DESIGN §5 C06"),
